@@ -921,27 +921,29 @@ func (e *tokEnv) randomEvent(rng *rand.Rand, normal []string) chain.M {
 		name := pick(rng, shared)
 		a := tok[name].(chain.M)                  // symbol = name
 		b := tok[byMin[name].(string)].(chain.M) // min unit = name
+		// signers must be user accounts (a token may be owned by the module account)
+		aOwner, bOwner := ownerOr(a, 100), ownerOr(b, 100)
 		switch rng.Intn(5) {
 		case 0, 1:
 			ev := tokEvent("Mint")
-			ev["who"], ev["mu"], ev["amt"] = a["owner"].(string), name, int64(1+rng.Intn(5))
+			ev["who"], ev["mu"], ev["amt"] = aOwner, name, int64(1+rng.Intn(5))
 			if rng.Intn(3) == 0 {
-				ev["who"] = b["owner"].(string)
+				ev["who"] = bOwner
 			}
 			return ev
 		case 2:
 			ev := tokEvent("Burn")
-			ev["who"], ev["mu"], ev["amt"] = pick(rng, []string{a["owner"].(string), b["owner"].(string)}), name, int64(1+rng.Intn(3))
+			ev["who"], ev["mu"], ev["amt"] = pick(rng, []string{aOwner, bOwner}), name, int64(1+rng.Intn(3))
 			return ev
 		case 3:
 			ev := tokEvent("Edit")
-			ev["who"], ev["sym"] = pick(rng, []string{a["owner"].(string), b["owner"].(string)}), name
+			ev["who"], ev["sym"] = pick(rng, []string{aOwner, bOwner}), name
 			ev["max"] = int64(rng.Intn(12))
 			ev["mintable"] = pick(rng, []string{"", "true", "false"})
 			return ev
 		default:
 			ev := tokEvent("TransferOwner")
-			ev["who"], ev["sym"] = pick(rng, []string{a["owner"].(string), b["owner"].(string)}), name
+			ev["who"], ev["sym"] = pick(rng, []string{aOwner, bOwner}), name
 			ev["to"] = pick(rng, normal)
 			return ev
 		}
